@@ -320,9 +320,13 @@ func (m Model) scalar(v Val, st *evState) Exp {
 		return e
 	case "bool":
 		return Exp{Kind: "bool", B: v.B}
-	case "int", "int8", "int16", "int32", "int64":
+	case "int":
+		return Exp{Kind: "num", S: strconv.FormatInt(int64(int(v.I)), 10)} // the program passes int(v.I): 32 bits on a 32-bit build
+	case "uint":
+		return Exp{Kind: "num", S: strconv.FormatUint(uint64(uint(v.U)), 10)}
+	case "int8", "int16", "int32", "int64":
 		return Exp{Kind: "num", S: strconv.FormatInt(v.I, 10)}
-	case "uint", "uint8", "uint16", "uint32", "uint64":
+	case "uint8", "uint16", "uint32", "uint64":
 		return Exp{Kind: "num", S: strconv.FormatUint(v.U, 10)}
 	case "float32":
 		return m.float(v.U, 32)
